@@ -553,7 +553,7 @@ func Run(r *ev.Run) {
 	if len(missing) > 0 {
 		r.Incomplete(fmt.Sprintf("constructors without a table row: %v", missing))
 	}
-	per := r.N(150, 4000)
+	per := r.N(1500, 8000)
 	var pool []zapcore.Field
 	for ri, rw := range rs {
 		for i := 0; i < per; i++ {
